@@ -4,6 +4,7 @@ scratch worktree of /repo) live in /verif/seeded/<name>/{patch.diff, <demo>_test
 
   tool/ingest_seed.py ingest <worktree> <name> [--prop Cnn]   copy from <worktree>/_seed, verify, remove the worktree
   tool/ingest_seed.py verify [<name-prefix> ...]               re-verify kept seeds (all by default)
+  tool/ingest_seed.py recheck [<name-prefix> ...]              only re-run the quick check against each patched copy (after a harness change)
 
 Verification happens in a scratch COPY of /repo (never /repo itself): (a) the patch applies,
 (b) the pinned suite stays green with it, (c) the demonstration fails with it and (d) passes
@@ -62,6 +63,33 @@ def verify(name):
     return res
 
 
+def recheck(name):
+    """Only re-run the property's quick check against a patched copy of /repo (after a harness change)."""
+    out = os.path.join(VERIF, "seeded", name)
+    res = json.load(open(os.path.join(out, "meta.json")))
+    prop = res["property"]
+    scratch = tempfile.mkdtemp(prefix="vseed-")
+    try:
+        dst = os.path.join(scratch, "repo")
+        shutil.copytree("/repo", dst, ignore=shutil.ignore_patterns(".git"))
+        rc, o = sh("patch -p1 -s < %s" % os.path.join(out, "patch.diff"), cwd=dst)
+        if rc != 0:
+            print("%-44s PATCH DOES NOT APPLY" % name, flush=True)
+            return
+        t0 = time.time()
+        env = dict(os.environ, VERIF_REPO=dst, VERIF_NO_EVIDENCE="1")
+        r = subprocess.run([os.path.join(VERIF, "vcheck"), prop, "quick"], env=env, capture_output=True, text=True)
+        viol = [l for l in r.stdout.splitlines() if l.startswith("VIOLATION")]
+        det = r.returncode == 1 and bool(viol)
+        res.setdefault("what_i_ran", {})["check"] = dict(cmd="VERIF_REPO=<patched copy of /repo> ./vcheck %s quick" % prop, rc=r.returncode, detected=det,
+                                                          violations=[v[:260] for v in viol[:4]], wall_s=round(time.time() - t0, 1), tail=r.stdout[-300:] if not viol else "")
+        res["detected_by_quick_check"] = det
+        json.dump(res, open(os.path.join(out, "meta.json"), "w"), indent=1)
+        print("%-44s %s %s" % (name, prop, ("DETECTED " + viol[0][:150]) if det else "MISSED rc=%d" % r.returncode), flush=True)
+    finally:
+        shutil.rmtree(scratch, ignore_errors=True)
+
+
 def ingest(wt, name, prop=None):
     seed = os.path.join(wt, "_seed")
     meta = json.load(open(os.path.join(seed, "meta.json")))
@@ -87,6 +115,11 @@ if __name__ == "__main__":
     if sys.argv[1] == "ingest":
         prop = sys.argv[sys.argv.index("--prop") + 1] if "--prop" in sys.argv else None
         ingest(sys.argv[2], sys.argv[3], prop)
+    elif sys.argv[1] == "recheck":
+        pats = sys.argv[2:] or [""]
+        for d in sorted(os.listdir(os.path.join(VERIF, "seeded"))):
+            if any(d.startswith(p) for p in pats):
+                recheck(d)
     else:
         pats = sys.argv[2:] or [""]
         for d in sorted(os.listdir(os.path.join(VERIF, "seeded"))):
